@@ -346,7 +346,8 @@ macro_rules! float_cases {
                 }
             }
             // ---- InverseGaussian
-            for &(mu, l) in &[(1.0, 1.0), (1.0, 0.1), (1.0, 10.0), (0.1, 3.0), (20.0, 2.0)] {
+            // (the last two: concentrated, nearly normal regime shape / mean >> 1)
+            for &(mu, l) in &[(1.0, 1.0), (1.0, 0.1), (1.0, 10.0), (0.1, 3.0), (20.0, 2.0), (1.0, 1000.0), (2.0, 8000.0)] {
                 let (mr, lr) = (R(mu), R(l));
                 r.add("InverseGaussian", N, &[("mean", mu), ("shape", l)], move || InverseGaussian::<F>::new(mu as F, l as F).ok(), nonneg,
                     cont(move |x| inv_gauss_cdf(x, mr, lr), 0.0, INF), true);
@@ -566,6 +567,11 @@ pub fn cases_int(r: &mut Reg, tier: Tier, _seed: u64) {
     }
     bin.push((1 << 61, 1e-17, true));
     bin.push((u64::MAX, 1e-19, true));
+    // BTPE with npq between 50 and 2e5 (step 5.3, the Stirling test, is only reached for 20 < |y - m| < npq/2 - 1):
+    // the grid above has np just above the switch and n >= 2^32 only
+    for &(n, p) in &[(603u64, 0.25), (2000, 0.4), (8000, 0.05), (30000, 0.99), (100_000, 0.004), (1_000_000, 0.3)] {
+        bin.push((n, p, true));
+    }
     for &n in &[1u64 << 63, u64::MAX] {
         for &p in &[0.5, 0.3, 1e-3, 1.0 - 1e-3] {
             bin.push((n, p, false));
